@@ -386,6 +386,10 @@ impl Simulation {
         &mut self,
         upper_time_bound: MonotonicTime,
     ) -> Result<Option<MonotonicTime>, ExecutionError> {
+        if self.is_terminated {
+            return Err(ExecutionError::Terminated);
+        }
+
         // Function pulling the next action. If the action is periodic, it is
         // immediately re-scheduled.
         fn pull_next_action(scheduler_queue: &mut MutexGuard<SchedulerQueue>) -> Action {
